@@ -54,6 +54,7 @@ PROPS = {
         "aux_builds": {"lpexec": {"pkg": "./tools/lpexec", "tags": "verif", "env": "VERIF_LPEXEC"}},
         "jobs": [
             {"name": "rapid", "pkg": "./c08", "tags": "binary_log verif", "run": "^TestRapidPrograms$", "rapid": T(4000, 60000), "shards": T(2, 16), "replay": "^TestReplay$"},
+            {"name": "alignment", "pkg": "./c08", "tags": "binary_log verif", "run": "^TestBoundaryAlignment$"},
             {"name": "trees", "pkg": "./c08", "tags": "binary_log verif", "run": "^TestRapidTrees$", "rapid": T(3000, 60000), "shards": T(2, 16)},
             {"name": "regress", "pkg": "./c08", "tags": "binary_log verif", "run": "^TestRegress$"},
         ],
